@@ -224,6 +224,8 @@ fn one(rep: &mut Report, mon: &str, case: u64, g: &mut Sm64, ctx: &Ctx, entry: E
     rep.eval();
     rep.count(&format!("entry[{entry:?}]"));
     // write
+    // (set once the input tensor exists: a panic before that is burn's, one after it the library's)
+    let built = std::cell::Cell::new(false);
     let wrote: Result<Result<(), String>, String> = guard(|| {
         let arr_f = |f: &dyn Fn(f64) -> f64| -> Vec<f64> { vals.iter().map(|x| f(*x)).collect() };
         let _ = arr_f;
@@ -240,23 +242,28 @@ fn one(rep: &mut Report, mon: &str, case: u64, g: &mut Sm64, ctx: &Ctx, entry: E
             (Entry::Parquet, Ty::I32) => save_parquet(&build(shape, &vals.iter().map(|x| *x as i32).collect::<Vec<_>>(), layout), &path),
             (Entry::CsvTensor, Ty::F32) => {
                 let t = Tensor::<NdArray<f32>, 3>::from_data(TensorData::new(vals.iter().map(|x| *x as f32).collect::<Vec<f32>>(), [a, b, c]), &Default::default());
+                built.set(true);
                 save_csv_tensor(t, &path)
             }
             (Entry::CsvTensor, Ty::F64) => {
                 let t = Tensor::<NdArray<f64>, 3>::from_data(TensorData::new(vals.clone(), [a, b, c]), &Default::default());
+                built.set(true);
                 save_csv_tensor(t, &path)
             }
             (Entry::ParquetTensor, Ty::F32) => {
                 let t = Tensor::<NdArray<f32>, 3>::from_data(TensorData::new(vals.iter().map(|x| *x as f32).collect::<Vec<f32>>(), [a, b, c]), &Default::default());
+                built.set(true);
                 save_parquet_tensor::<NdArray<f32>, _, f32>(&t, &path)
             }
             (Entry::ParquetTensor, Ty::F64) => {
                 let t = Tensor::<NdArray<f64>, 3>::from_data(TensorData::new(vals.clone(), [a, b, c]), &Default::default());
+                built.set(true);
                 save_parquet_tensor::<NdArray<f64>, _, f64>(&t, &path)
             }
             (Entry::ParquetTensorOtherT, _) => {
                 macro_rules! with_t {
-                    ($t:expr) => {
+                    ($t:expr) => {{
+                        built.set(true);
                         match other_t {
                             0 => save_parquet_tensor::<_, _, f32>($t, &path),
                             1 => save_parquet_tensor::<_, _, f64>($t, &path),
@@ -265,7 +272,7 @@ fn one(rep: &mut Report, mon: &str, case: u64, g: &mut Sm64, ctx: &Ctx, entry: E
                             4 => save_parquet_tensor::<_, _, i16>($t, &path),
                             _ => save_parquet_tensor::<_, _, u32>($t, &path),
                         }
-                    };
+                    }};
                 }
                 match ty {
                     Ty::F32 => {
@@ -292,7 +299,7 @@ fn one(rep: &mut Report, mon: &str, case: u64, g: &mut Sm64, ctx: &Ctx, entry: E
     match wrote {
         Err(m) => {
             // a panic inside burn while *building* an empty tensor is not the library's doing
-            if (a == 0 || b == 0 || c == 0) && matches!(entry, Entry::CsvTensor | Entry::ParquetTensor | Entry::ParquetTensorOtherT) && !m.contains("mini") {
+            if (a == 0 || b == 0 || c == 0) && matches!(entry, Entry::CsvTensor | Entry::ParquetTensor | Entry::ParquetTensorOtherT) && !built.get() {
                 rep.inconclusive("burn could not build the empty input tensor");
                 cleanup();
                 return;
@@ -386,6 +393,10 @@ fn one(rep: &mut Report, mon: &str, case: u64, g: &mut Sm64, ctx: &Ctx, entry: E
     }
 }
 
+fn g_encode(case: u64) -> bool {
+    case % 2 == 0
+}
+
 fn types_for(entry: Entry) -> &'static [Ty] {
     match entry {
         Entry::Csv => &[Ty::F32, Ty::F64, Ty::I32, Ty::Usize],
@@ -441,7 +452,15 @@ fn fault_case(rep: &mut Report, case: u64, g: &mut Sm64, ctx: &Ctx) {
     match r {
         Err(m) => rep.violation(&format!("{entry:?} panic-on-unwritable-path: {kind}"), mon, case, json!({"cfg": cfg, "panic": m})),
         Ok(Ok(())) => rep.violation(&format!("{entry:?} reports-success-on-unwritable-path: {kind}"), mon, case, cfg),
-        Ok(Err(_)) => rep.held(),
+        Ok(Err(_)) => {
+            rep.held();
+            // the failed export must leave nothing behind: the next export of the same kind on this
+            // thread (to a writable path, at most as many dim columns) round-trips as usual
+            let ty = types_for(entry)[0];
+            let shape2 = (g.range(1, 3), g.range(1, 6), g.range(1, shape.2));
+            rep.count("exports_right_after_a_failed_export");
+            one(rep, "faults", case, g, ctx, entry, ty, shape2, g_encode(case));
+        }
     }
 }
 
